@@ -57,6 +57,8 @@ def check_line_number(chk, T):
                 s.add(z3.BV2Int(r.value.z(), True) != want)
             chk.queries += 1
             q = s.check()
+            if q in (z3.sat, z3.unsat):
+                chk.cross_check(s, 'sat' if q == z3.sat else 'unsat', every=15)
             if q == z3.unknown:
                 chk.undecide('get_line_number: solver unknown'); continue
             if q == z3.unsat:
